@@ -540,4 +540,34 @@ theorem splitNew_spec (h : Heap) (o : Obj) (cut : Bool) (bounds : List Nat) :
       subst hp
       exact fun a ha => (m a ha).1
 
+theorem Sep.symm {a b : Obj} (s : Sep a b) : Sep b a := fun x hb ha => s x ha hb
+
+theorem deepcopyList_spec (h : Heap) (os : List Obj) :
+    Ext h (deepcopyList h os).1 ∧ ∀ c ∈ (deepcopyList h os).2, FreshSince h c := by
+  induction os generalizing h with
+  | nil => exact ⟨Ext.refl h, fun c hc => by simp [deepcopyList] at hc⟩
+  | cons o r ih =>
+      obtain ⟨e, m⟩ := deepcopy_spec h o
+      obtain ⟨e2, f2⟩ := ih (deepcopy h o).1
+      simp only [deepcopyList]
+      refine ⟨e.trans e2, ?_⟩
+      intro c hc
+      simp only [List.mem_cons] at hc
+      rcases hc with rfl | hc
+      · exact fun a ha => (m a ha).1
+      · exact (f2 c hc).mono e.mono
+
+/-- aligning `est` to `ref`: the two stay separated, and what `est` does leaves `ref` (with its caches as filled by the
+reads) exactly as it was -/
+theorem alignWith_spec (h : Heap) (est ref : Obj) (rd ops : List HOp) (we : Wf h est) (wr : Wf h ref) (s : Sep est ref) :
+    Sep (alignWith h est ref rd ops).2.1 (alignWith h est ref rd ops).2.2 ∧
+    Wf (alignWith h est ref rd ops).1 (alignWith h est ref rd ops).2.2 ∧
+    view (alignWith h est ref rd ops).1 (alignWith h est ref rd ops).2.2
+      = view (hrun h ref rd).1 (hrun h ref rd).2 := by
+  have l1 := hrun_local h ref rd
+  obtain ⟨_, s1, w1⟩ := l1.noninterference we s.symm
+  have l2 := hrun_local (hrun h ref rd).1 est ops
+  obtain ⟨v2, s2, w2⟩ := l2.noninterference (l1.wf wr) s1.symm
+  exact ⟨s2, w2, v2⟩
+
 end Evo.Heap
